@@ -61,8 +61,13 @@ fn run_pty_srv(case: &PtySrvCase, slow: u32) -> CaseResult {
     let mut pty = Pty::open()?;
     let log: CallLog = Default::default();
     let mut map: ServerHandlerMap<LogHandler> = ServerHandlerMap::new();
+    // the application keeps its handlers (that is what the Arc<Mutex<..>> is for) and locks one
+    // now and then, as an application updating its values would
+    let mut app_handles = Vec::new();
     for (u, st) in case.base.cfg.unit_map() {
-        map.add(UnitId::new(u), rodbus::server::RequestHandler::wrap(LogHandler::new(u, st, log.clone())));
+        let h = rodbus::server::RequestHandler::wrap(LogHandler::new(u, st, log.clone()));
+        app_handles.push(h.clone());
+        map.add(UnitId::new(u), h);
     }
     let handle = {
         let _g = rt.enter();
@@ -105,6 +110,23 @@ fn run_pty_srv(case: &PtySrvCase, slow: u32) -> CaseResult {
         }
         let o = &verdict.allowed[0];
         let before = log.lock().unwrap().len();
+        // while a write addressed to 0 arrives the application holds the lock of one unit for
+        // 30 ms: the fan-out has to wait for it, not skip the unit
+        let holder = if f.unit == 0 && !app_handles.is_empty() {
+            let h = app_handles[k % app_handles.len()].clone();
+            let (tx, rx) = std::sync::mpsc::channel();
+            let t = std::thread::spawn(move || {
+                let g = h.lock().unwrap();
+                let _ = tx.send(());
+                std::thread::sleep(Duration::from_millis(30));
+                drop(g);
+            });
+            let _ = rx.recv_timeout(Duration::from_millis(500));
+            ok.label("broadcast_while_application_holds_a_handler");
+            Some(t)
+        } else {
+            None
+        };
         pty.write(&rtu_frame(f.unit, &f.pdu))?;
         // the trailing sentinel establishes what, if anything, was written for the frame
         std::thread::sleep(Duration::from_millis(8));
@@ -121,6 +143,9 @@ fn run_pty_srv(case: &PtySrvCase, slow: u32) -> CaseResult {
             }
         };
         let got = pty.read_n(expect.len(), wait);
+        if let Some(t) = holder {
+            let _ = t.join();
+        }
         // nothing may follow
         let extra = pty.drain(Duration::from_millis(10));
         if got != expect || !extra.is_empty() {
